@@ -30,6 +30,22 @@ PROPS = {
   'thorough': {'cases': 4000, 'max_size': 100, 'wall_s': 1800},
   'essential_classes': ['candidates:substitution', 'candidates:transposition', 'candidates:byte-value', 'candidates:algorithm-byte', 'encode:ok'],
   'assumptions': ['reference base-32 / CRC-32 / algorithm table correct (known-answer self-test)'],
+ }, 'C03': {
+  'technique': 'property-based testing (rapidcheck) + exhaustive calendar-shape enumeration against a reference chain formula (Crypto++ digests)',
+  'level_text': 'Generated link sequences (all sibling kinds, boundary level corrections up to 2^64-1, all start levels, all supported algorithms) are aggregated '
+                'through the list API, through parsed chain objects at sequences of start levels (memoisation) and through chain lists, and compared in both '
+                'directions with an independent implementation of the KSI chain formula; calendar roots are compared with the algorithm-switching rule; '
+                'registration times with a constructive calendar-tree geometry, exhaustively for all shapes up to a length bound x all publication times up to a bound.',
+  'level_note': 'Trusted: Crypto++ digests, ref/chain.cpp (formula and leaf-count tree geometry), time_t is 64-bit (publication times < 2^62 generated).',
+  'rule': 'rapidcheck choice strings -> (a) link lists via setters, (b) parsed aggregation chains aggregated at 2..6 start levels on one object, shape, '
+          '(c) chain lists, (d) calendar chains with algorithm switches, (e) calendar time for shape(t,p) and its flip/drop/add/swap perturbations with 32/64-bit '
+          'times; exhaustive: every direction string up to length L x every publication time up to P. Non-trivial = >= 2 links or a boundary value '
+          '(correction > 255, start level > 200), calendar strings containing both directions; distinct = distinct descriptor (mode, shape string, levels, times).',
+  'quick': {'cases': 6400, 'max_size': 200, 'exhaustive': True, 'wall_s': 900},
+  'thorough': {'cases': 200000, 'max_size': 300, 'exhaustive': True, 'wall_s': 3000},
+  'essential_classes': ['setters:valid', 'setters:invalid:correction > 255', 'setters:invalid:level > 255', 'parsed:with-refused-level', 'parsed:has-metadata', 'parsed:has-legacy-id',
+                        'cal:valid-with-alg-switch', 'caltime:valid', 'caltime:impossible', 'shape:too-long', 'list:valid'],
+  'assumptions': ['Crypto++ digests are correct', 'publication times below 2^62 (time_t output)'],
  },
 }
 
